@@ -248,7 +248,10 @@ Loop:
 								}
 							}
 						}
-						if !isConvertMap {
+						if asMap, ok := node.(map[string]interface{}); ok && !isConvertMap {
+							// an earlier edit has already turned the copy into a map
+							asMap[edit.Key.(string)] = edit.Value
+						} else if !isConvertMap {
 							node = updateNodeField(node, edit.Key.(string), edit.Value)
 						} else {
 							// non-node needs convert to map
